@@ -742,6 +742,9 @@ func planeReader(a *anchors, r *sx.Rep, fn *ssa.Function, role string, hdrT type
 	}
 	// ---- DEQ-1: dequantisation maps of the single-byte planes
 	deq(a, r, e, name, role, st.St.Val, slots, spec, st.St.Pos())
+	if role == a.attr("RotationAttribute") {
+		rotW(a, r, name, slots, st.St.Pos())
+	}
 }
 
 func uniq(xs []int64) []int64 {
